@@ -1706,4 +1706,64 @@ theorem runStmtObjs_total (fuel : Nat) : ∀ (objs : List StmtObj) (n : FNode) (
         rw [← h]; exact runStmtObjs_total fuel fs n' e2 (h2 n' f' hp) hr
       | ok r2 => rw [hr] at h; cases h
 
+/-! ## bridge to the grouping model: delimited parentheses are inside the `strip_whitespace` domain -/
+
+theorem dropWhile_zero_mem (l : List Nat) (x : Nat) (r : List Nat) (h : l.dropWhile (· == 0) = x :: r) :
+    x ≠ 0 ∧ ∀ y ∈ x :: r, y ∈ l := by
+  constructor
+  · have := dropWhile_head_not (fun c : Nat => c == 0) l x (by rw [h]; rfl)
+    simpa using this
+  · intro y hy
+    have : y ∈ l.dropWhile (· == 0) := by rw [h]; exact hy
+    exact (List.dropWhile_sublist _).subset this
+
+/-- if the child list of a parenthesis is `open :: mid ++ [close]` with non-whitespace leaves `open`/`close` (codes 1) and no
+child of `mid` is a group without a non-whitespace child (code 2), `_stripws_parenthesis` is inside its domain.  This is the
+shape `_group_matching` builds and C09 (`bracket_groups_final`) preserves, with `close` possibly followed by comment groups
+(code 1 as well). -/
+theorem parenCodesOK_of_delims (o c : Nat) (mid : List Nat) (ho : o = 1) (hc : c = 1) (hmid : ∀ x ∈ mid, x ≠ 2) :
+    parenCodesOK (o :: mid ++ [c]) = true := by
+  subst ho hc
+  simp only [List.cons_append, parenCodesOK]
+  cases hd : (mid ++ [1]).dropWhile (· == 0) with
+  | nil =>
+    exfalso
+    have : (1 : Nat) ∈ (mid ++ [1]).dropWhile (· == 0) := by
+      have hsplit := List.takeWhile_append_dropWhile (p := fun c : Nat => c == 0) (l := mid ++ [1])
+      have hmem : (1 : Nat) ∈ mid ++ [1] := by simp
+      rw [← hsplit] at hmem
+      rcases List.mem_append.mp hmem with h1 | h1
+      · have := mem_takeWhile_sat (fun c : Nat => c == 0) _ _ h1
+        simp at this
+      · exact h1
+    rw [hd] at this; cases this
+  | cons t1 tl1 =>
+    simp only
+    obtain ⟨ht1, hsub⟩ := dropWhile_zero_mem _ t1 tl1 hd
+    cases hr : ((1 : Nat) :: t1 :: tl1).dropLast.reverse.dropWhile (· == 0) with
+    | nil =>
+      exfalso
+      -- `open` itself is in the reversed prefix and is not 0
+      have h1mem : (1 : Nat) ∈ ((1 : Nat) :: t1 :: tl1).dropLast.reverse := by
+        simp [List.dropLast]
+      have hsplit := List.takeWhile_append_dropWhile (p := fun c : Nat => c == 0) (l := ((1 : Nat) :: t1 :: tl1).dropLast.reverse)
+      rw [hr, List.append_nil] at hsplit
+      rw [← hsplit] at h1mem
+      have := mem_takeWhile_sat (fun c : Nat => c == 0) _ _ h1mem
+      simp at this
+    | cons pen rest =>
+      simp only [bne_iff_ne, ne_eq]
+      have hpen : pen ∈ ((1 : Nat) :: t1 :: tl1).dropLast.reverse.dropWhile (· == 0) := by rw [hr]; exact List.mem_cons_self
+      have hpen2 : pen ∈ ((1 : Nat) :: t1 :: tl1).dropLast := by
+        have := (List.dropWhile_sublist _).subset hpen
+        exact List.mem_reverse.mp this
+      have hpen3 : pen ∈ (1 : Nat) :: t1 :: tl1 := List.dropLast_subset _ hpen2
+      rcases List.mem_cons.mp hpen3 with rfl | h2
+      · decide
+      · have := hsub pen h2
+        rcases List.mem_append.mp this with h3 | h3
+        · exact hmid pen h3
+        · simp only [List.mem_singleton] at h3; rw [h3]; decide
+
+
 end Sql
